@@ -71,8 +71,8 @@ def run(ck):
             conv = [c for c in p.calls() if c[1] in eavobj.CONVERTERS]
             a = p.calls('is_ascii_domain')
             if not conv or not a: s.add(('early', p.ret()[1])); continue
-            out = conv_output(conv[0])
-            s.add(trace(p, out, f'({out} + strlen#1)', p.events.index(a[0]), p.ret()[1]))
+            out = conv_output(conv[-1])          # the conversion whose output is used (a retry makes a second call)
+            s.add((trace(p, out, f'({out} + strlen#1)', p.events.index(a[0]), p.ret()[1]), ('conversions', len(conv))))
         tr[b] = s
         ck.analysed(units=[k], functions=[f'{k}:is_utf8_domain'])
     for b in BACKENDS:
